@@ -125,3 +125,7 @@ impl ZXMixer {
         (self.samples_per_frame() as f64 * fraction) as usize
     }
 }
+
+#[cfg(kani)]
+#[path = "/verif/hooks/core/mixer.rs"]
+mod verif_hooks;
